@@ -323,7 +323,7 @@ func genItem(r *mon.Rng, o genOpts, tag string, fi, ii int, pBroken int) itemD {
 			it.N = &nameD{"s", hex.EncodeToString(append([]byte(prefix), genRawBody(r, true)...))}
 		case 1:
 			k := r.Pick([]string{"ascii", "latin1", "bmp", "astral", "punct"})
-			it.NK = "py2uni-" + k
+			it.NK = k
 			it.N = &nameD{"u", hex.EncodeToString([]byte(prefix + genBody(r, k)))}
 		default:
 			it.NK = "py2str-ascii"
@@ -341,27 +341,37 @@ func genItem(r *mon.Rng, o genOpts, tag string, fi, ii int, pBroken int) itemD {
 		it.N = &nameD{"b", hex.EncodeToString(append([]byte(prefix), genRawBody(r, r.Bool())...))}
 	default:
 		k := "ascii"
-		if exotic && r.Chance(1, 2) {
+		if exotic && r.Chance(1, 2) && !o.bytes3 {
 			k = r.Pick([]string{"punct", "latin1", "bmp", "astral"})
 			exotic = false
 		}
 		it.NK = k
 		it.N = &nameD{"u", hex.EncodeToString([]byte(prefix + genBody(r, k)))}
 	}
-	// numbers: at most one exotic field most of the time, so that signatures stay attributable
-	for tries := 0; ; tries++ {
-		it.TS, it.TK = genTS(r, o.py2)
-		if it.TK == "int" || exotic || tries > 20 || r.Chance(1, 8) {
-			if it.TK != "int" {
-				exotic = false
-			}
-			break
+	// numbers: at most one exotic field most of the time, so that signatures stay attributable.
+	// The python-3 bytes workload keeps every other field plain: its only subject is the known finding K1.
+	if o.bytes3 {
+		it.TS, it.TK = &scal{"i", strconv.Itoa(1500000000 + r.Intn(300000000))}, "int"
+		if r.Bool() {
+			it.V, it.VK = &scal{"i", strconv.Itoa(r.Intn(100000))}, "int"
+		} else {
+			it.V, it.VK = &scal{"f", fhex(float64(r.Intn(1000000)) / 1000)}, "float"
 		}
-	}
-	for tries := 0; ; tries++ {
-		it.V, it.VK = genVal(r, o.py2)
-		if it.VK == "int" || it.VK == "float" || exotic || tries > 20 || r.Chance(1, 8) {
-			break
+	} else {
+		for tries := 0; ; tries++ {
+			it.TS, it.TK = genTS(r, o.py2)
+			if it.TK == "int" || exotic || tries > 20 || r.Chance(1, 8) {
+				if it.TK != "int" {
+					exotic = false
+				}
+				break
+			}
+		}
+		for tries := 0; ; tries++ {
+			it.V, it.VK = genVal(r, o.py2)
+			if it.VK == "int" || it.VK == "float" || exotic || tries > 20 || r.Chance(1, 8) {
+				break
+			}
 		}
 	}
 	if o.py2 && r.Chance(1, 5) {
@@ -435,14 +445,18 @@ func genConn(seed uint64, stream uint64, idx int, o genOpts, id int) connD {
 			fd.Mode = "py2"
 		}
 		var n int
+		big, mid := 88, 60 // thorough: 12% of the lists hold 61-200 items, 28% 11-60
+		if !mon.Thorough() {
+			big, mid = 96, 78
+		}
 		switch x := r.Intn(100); {
 		case x < 6:
 			n = 0
 		case x < 20:
 			n = 1
-		case x < 60:
+		case x < mid:
 			n = r.Range(2, 10)
-		case x < 88:
+		case x < big:
 			n = r.Range(11, 60)
 		default:
 			n = r.Range(61, 200)
@@ -453,7 +467,7 @@ func genConn(seed uint64, stream uint64, idx int, o genOpts, id int) connD {
 		budget -= n
 		fd.Items = make([]itemD, 0, n)
 		for i := 0; i < n; i++ {
-			if i > 0 && r.Chance(1, 25) { // the very same object again: memo GET / BINGET
+			if i > 0 && r.Chance(1, 25) && !o.bytes3 { // the very same object again: memo GET / BINGET
 				j := r.Intn(i)
 				for fd.Items[j].Same != nil {
 					j = *fd.Items[j].Same
@@ -505,6 +519,7 @@ type pyGen struct {
 	in  *bufio.Writer
 	inC io.WriteCloser
 	out *bufio.Reader
+	dump *os.File // C13_DUMP=<file>: keep the descriptions sent to python (debugging aid)
 }
 
 func startPy() *pyGen {
@@ -525,7 +540,11 @@ func startPy() *pyGen {
 	if err := cmd.Start(); err != nil {
 		panic("cannot start python3: " + err.Error())
 	}
-	return &pyGen{cmd: cmd, in: bufio.NewWriterSize(in, 1<<20), inC: in, out: bufio.NewReaderSize(out, 1<<20)}
+	g := &pyGen{cmd: cmd, in: bufio.NewWriterSize(in, 1<<20), inC: in, out: bufio.NewReaderSize(out, 1<<20)}
+	if df := os.Getenv("C13_DUMP"); df != "" {
+		g.dump, _ = os.Create(df)
+	}
+	return g
 }
 
 func (p *pyGen) send(c connD) {
@@ -535,6 +554,10 @@ func (p *pyGen) send(c connD) {
 	}
 	p.in.Write(b)
 	p.in.WriteByte('\n')
+	if p.dump != nil {
+		p.dump.Write(b)
+		p.dump.Write([]byte{'\n'})
+	}
 }
 
 func (p *pyGen) readU32() uint32 {
@@ -791,7 +814,13 @@ func numOp(f frameD, s *scal, forced string) string {
 		return "LONG"
 	}
 	if in32 {
-		return "BININT*"
+		switch {
+		case n >= 0 && n <= 255:
+			return "BININT1"
+		case n >= 0 && n <= 65535:
+			return "BININT2"
+		}
+		return "BININT"
 	}
 	if f.Mode == "py2" {
 		return "INT"
@@ -808,7 +837,7 @@ func exoticLabel(f frameD, it itemD) string {
 		// the very same *list* object a second time: a memo reference to an object that was memoised while still empty
 		return "memo=shared-list"
 	}
-	if it.NK != "ascii" && it.NK != "py2str-ascii" && it.NK != "py2uni-ascii" {
+	if it.NK != "ascii" && it.NK != "py2str-ascii" {
 		parts = append(parts, "name="+it.NK+":"+nameOp(f, it))
 	}
 	if it.TK != "int" {
@@ -868,6 +897,7 @@ func judge(c connD, o outcome, e expect, malKind string) []finding {
 	}
 	// datapoints
 	i, j := 0, 0
+	dropped := 0 // well-formed items the pickle side did not dispatch (each is normally also counted invalid)
 	E, P := e.lines, o.lines
 	idsLeft := func(id string, from int) bool {
 		for k := from; k < len(P); k++ {
@@ -907,7 +937,8 @@ func judge(c connD, o outcome, e expect, malKind string) []finding {
 		}
 		if i < len(E) && (j >= len(P) || !idsLeft(lineID(E[i].line), j)) {
 			f, it := itemOf(c, E[i].fi, E[i].ii)
-			add("item-dropped:"+exoticLabel(f, it), fmt.Sprintf("plain input dispatched %q, pickle input dispatched nothing for that datapoint (frame %d item %d, %s protocol %d, handle err=%v)", E[i].line, E[i].fi, E[i].ii, f.Mode, f.Proto, o.err),
+			dropped++
+			add("item-dropped:"+exoticLabel(f, it), fmt.Sprintf("plain input dispatched %q, pickle input dispatched nothing for that datapoint (frame %d item %d, %s protocol %d, handle err=%v; IncNumInvalid calls %d, broken items %d)", E[i].line, E[i].fi, E[i].ii, f.Mode, f.Proto, o.err, o.invalid, e.invalid),
 				map[string]interface{}{"frame": E[i].fi, "item": E[i].ii, "desc": it, "mode": f.Mode, "proto": f.Proto, "plain_line": string(E[i].line)})
 			i++
 			continue
@@ -917,7 +948,7 @@ func judge(c connD, o outcome, e expect, malKind string) []finding {
 			j++
 		}
 	}
-	if o.invalid != e.invalid {
+	if o.invalid != e.invalid && !(dropped > 0 && o.invalid == e.invalid+dropped) {
 		dir := "over"
 		if o.invalid < e.invalid {
 			dir = "under"
@@ -994,7 +1025,7 @@ func matches(o outcome, e expect) bool {
 
 func segmentations(r *mon.Rng, n int, nrand int, small int) [][]int {
 	segs := [][]int{nil} // whole stream in one read
-	if n <= 4096 {
+	if n <= 1500 {
 		all := make([]int, 0, n)
 		for i := 1; i < n; i++ {
 			all = append(all, i)
@@ -1159,15 +1190,24 @@ func checkConn(res *mon.Result, st *stats, j job) {
 	st.add("connections", 1)
 	st.add("stream_bytes", len(stream))
 	st.add("broken_items_planted", want.invalid)
+	loc := map[string]int{}
 	for _, f := range c.Frames {
-		st.add(fmt.Sprintf("frames_%s_proto%d", f.Mode, f.Proto), 1)
+		loc[fmt.Sprintf("frames_%s_proto%d", f.Mode, f.Proto)]++
 		for _, it := range f.Items {
 			if it.Shape == "ok" {
-				st.add("items_name_"+it.NK, 1)
-				st.add("items_ts_"+it.TK, 1)
-				st.add("items_value_"+it.VK, 1)
+				loc["items_name_"+it.NK]++
+				loc["items_ts_"+it.TK]++
+				loc["items_value_"+it.VK]++
+				if it.Same != nil {
+					loc["items_memo_same_object"]++
+				}
+			} else {
+				loc["items_broken_"+it.Shape]++
 			}
 		}
+	}
+	for k, v := range loc {
+		st.add(k, v)
 	}
 	res.Eval(1)
 	if nonTrivial {
@@ -1327,9 +1367,9 @@ func checkMalformed(res *mon.Result, st *stats, j job, healthy job, tupleFrame [
 	}
 	plainB := perFramePlain(bB)
 	wantB := trueExpect(cB, plainB, k, true)
-	plainA := perFramePlain(healthy.b)
-	wantA := trueExpect(healthy.c, plainA, len(healthy.c.Frames), false)
 	streamA := bytes.Join(healthy.b.frames, nil)
+	checkConn(res, st, healthy) // judged on its own like any other connection
+	aloneA := feedPickle(streamA, nil)
 
 	res.LogCase("malformed %d kind=%s after %d good frames, stream %d bytes, concurrent healthy connection %s", j.idx, kind, k, len(stream), healthy.c.Tag)
 
@@ -1367,7 +1407,7 @@ func checkMalformed(res *mon.Result, st *stats, j job, healthy job, tupleFrame [
 		st.add("malformed_frames_fed", 1)
 		st.add("malformed_"+kind, 1)
 		oB := outcome{lb, wantB.invalid, errB, panB} // invalid is accounted over both connections below
-		oA := outcome{la, wantA.invalid, errA, panA}
+		oA := outcome{la, aloneA.invalid, errA, panA}
 		wit := map[string]interface{}{"malformed_kind": kind, "malformed_frame_hex": hex.EncodeToString(mal[:min(len(mal), 200)]), "malformed_at_offset": malAt, "good_frames_before": k, "handle_error": fmt.Sprint(errB)}
 		for _, f := range judge(cB, oB, wantB, kind) {
 			w := witness(j, f.wit, cuts)
@@ -1376,15 +1416,19 @@ func checkMalformed(res *mon.Result, st *stats, j job, healthy job, tupleFrame [
 			}
 			res.Violate(f.sig, f.msg, w)
 		}
-		for _, f := range judge(healthy.c, oA, wantA, "") {
-			w := witness(healthy, f.wit, ra.cuts)
+		// the healthy connection must fare exactly as it does when it is alone
+		if oA.digest() != aloneA.digest() {
+			w := witness(healthy, nil, ra.cuts)
 			for kk, v := range wit {
 				w[kk] = v
 			}
-			res.Violate("concurrent-connection-affected:"+f.sig, "a healthy connection served concurrently with a malformed one: "+f.msg, w)
+			w["alone"] = fmt.Sprintf("%d lines, err=%v", len(aloneA.lines), aloneA.err)
+			w["concurrent"] = fmt.Sprintf("%d lines, err=%v, panic=%q", len(la), errA, panA)
+			res.Violate("concurrent-connection-affected", "a healthy connection served concurrently with a malformed one on the same handler did not produce what it produces alone", w)
 		}
-		if inv != wantA.invalid+wantB.invalid && panA == "" && panB == "" {
-			res.Violate("invalid-count:malformed", fmt.Sprintf("IncNumInvalid called %d times over both connections, %d broken items were in the frames that had to be processed", inv, wantA.invalid+wantB.invalid), witness(j, wit, cuts))
+		invAlone := aloneA.invalid
+		if inv != invAlone+wantB.invalid && panA == "" && panB == "" && len(lb) == len(wantB.lines) {
+			res.Violate("invalid-count:malformed", fmt.Sprintf("IncNumInvalid called %d times over both connections; the healthy one alone gives %d, the frames before the malformed one hold %d broken items", inv, invAlone, wantB.invalid), witness(j, wit, cuts))
 		}
 		if errB != nil {
 			st.add("malformed_ended_with_error", 1)
@@ -1422,10 +1466,10 @@ func main() {
 	st := &stats{m: map[string]int{}}
 	seed := mon.Seed()
 
-	nMain := mon.N(1100, 60000)
-	nBytes := mon.N(150, 6000)
-	nPy2 := mon.N(350, 20000)
-	nMal := mon.N(200, 10000)
+	nMain := mon.N(400, 28000)
+	nBytes := mon.N(60, 3000)
+	nPy2 := mon.N(140, 9000)
+	nMal := mon.N(80, 5000)
 
 	type plan struct {
 		workload string
@@ -1551,7 +1595,7 @@ func main() {
 	for _, p := range plans {
 		res.Count("connections_"+p.workload, count[p.workload])
 	}
-	res.Floor("lines_compared", st.m["lines_compared"], mon.N(50000, 2000000))
+	res.Floor("lines_compared", st.m["lines_compared"], mon.N(40000, 4000000))
 	res.Floor("malformed_frames_fed", st.m["malformed_frames_fed"], nMal)
 	res.Floor("connections", st.m["connections"], nMain+nBytes+nPy2)
 	res.Write()
